@@ -92,6 +92,20 @@ var specs = map[string]*Spec{
 		Assumptions:  []string{"crash model: durable = fsynced data + journal prefix; unsynced writes persist in any subset, the last possibly torn at 512 bytes; real ext4 behaviour cannot be observed in this VM", "the image file's directory entry is durable before the crash batch starts (fsync of the parent directory is outside C11)"},
 		ExpectProbes: []string{"batch_reopen", "batch_crash", "batch_fault", "crash", "crash_after_barrier", "crash_lost_unsynced_write", "real_kernel_runs"},
 	},
+	"C12": {
+		ID: "C12", Title: "MemFs == DirFs == reference model on all valid histories",
+		Driver: "./drivers/machdrv", ModFile: "go.mod",
+		Rewrites: machRewrites(), Flavours: []string{"plain"},
+		Quick:    TierParams{Runs: 6000, Budget: 5 * time.Minute},
+		Thorough: TierParams{Budget: 12 * time.Minute},
+		Level:    "exploration",
+		Rule: "fault-free configuration of the filesystem simulator: one client, 1-3 directories, a plan of 1-40 calls (Create/Append/Close/Open/ReadAt/Delete/Link/AtomicCreate/List, plus one bulk creation of 110-190 names for List's refill loop) generated against the reference model so that every call respects the documented preconditions; names from {a,b,a.tmp,c}, data sizes 0..70000, offsets/lengths around the file size, aliasing probes (scribble on data after Append/AtomicCreate and on the slice returned by ReadAt). " +
+			"The same plan runs on MemFs and on DirFs over the simulated kernel (ReadDirent limited to 1-3 entries per call in half of the runs, high descriptor numbers in a quarter), each directly and through the package-level wrappers, and every tenth plan on DirFs over the real Linux kernel; every result is compared with the model (descriptors up to renaming and required to be fresh, List as a set) and all files are re-read at the end. " +
+			"Non-trivial: some ReadAt returned data; distinct = distinct plans.",
+		Components:   machComponents,
+		Assumptions:  []string{"only histories that respect the documented preconditions are generated (Open/Delete of existing names, Link from an existing name, Append on Create descriptors, ReadAt on Open descriptors, Close once)", "single client, no faults, no crash; those belong to C13/C14"},
+		ExpectProbes: []string{"scribble_after_append", "scribble_after_readat", "scribble_after_atomiccreate", "list_over_100_names", "real_kernel_runs"},
+	},
 	"C10": {
 		ID: "C10", Title: "Concurrent disk operations are linearizable per block",
 		Driver: "./drivers/machdrv", ModFile: "go.mod",
